@@ -74,6 +74,17 @@ CORPUS = [
     dict(tree=('fn', 'sqrt', _X), x=[0.0011, 1.0], method='central', n=1, order=2, shape=[2]),           # 2eb6030
     dict(tree=('fn', 'exp', ('mul', ('ci', 1.0), _X)), x=[0.5], method='central', n=1, order=2, cplx=True),   # 4b12ea2
     dict(tree=('fn', 'sin', _X), x=[0.3, 1.2, 2.0], method='multicomplex', n=1, order=2, shape=[3]),     # 8280d5f
+    # arrays that mix a point whose larger steps leave the domain (not judged itself) with points far inside it, higher n: what
+    # happens to the first element's table must not cost the others their large steps
+    dict(tree=('fn', 'log', _X), x=[0.02, 1.0, 5.0], method='central', n=4, order=2, shape=[3]),
+    dict(tree=('fn', 'sqrt', _X), x=[0.02, 2.0, 5.0], method='central', n=5, order=2, shape=[3]),
+    dict(tree=('fn', 'log', _X), x=[3.0, 0.05, 8.0], method='backward', n=3, order=2, shape=[3]),
+    dict(tree=('fn', 'arctanh', ('mul', ('c', 0.1), _X)), x=[9.97, 1.0, -3.0], method='central', n=3, order=4, shape=[3]),
+    dict(tree=('powr', _X, 1.5), x=[0.03, 4.0, 7.0], method='central', n=4, order=2, shape=[3]),
+    # ... and arrays with an element outside the domain altogether (nan at every step; not judged): the others keep their own rows
+    dict(tree=('fn', 'log', _X), x=[20.0, 50.0, -1.0], method='forward', n=1, order=2, shape=[3]),
+    dict(tree=('fn', 'sqrt', _X), x=[-0.5, 2.0, 7.0], method='central', n=2, order=2, shape=[3]),
+    dict(tree=('fn', 'log', ('mul', _X, _X)), x=[1.5, -2.5, 3.0], method='backward', n=1, order=4, shape=[3], step=dict(kind='scalar', value=0.01)),
     # witnesses of the listed (open) findings that a random draw of the quick tier does not always contain
     dict(tree=('fn', 'sin', ('fn', 'expm1', ('div', _X, ('c', 0.1)))), x=[0.5291377990629251, 0.3655232913548389], shape=[2],
          method='central', n=1, order=3),                               # selector-picked-steps-beyond-validity-radius
